@@ -896,6 +896,9 @@ def _expand_when_stmt_element(
             group_match_elements[case_idx].append([])
             group_assignment_elements[case_idx].append([])
             for group_element in and_group["elements"]:
+                # After the DNF normalization the same spec object can be part of
+                # several and-groups: work on a copy since the spec is modified below
+                group_element = copy.deepcopy(group_element)
                 match_element = copy.deepcopy(group_element)
                 ref_uid = None
                 temp_ref_uid: str
